@@ -44,6 +44,8 @@ func (h *liquidBlockHeaderSubscriber) Register(tx TXObserver) {
 }
 
 func (h *liquidBlockHeaderSubscriber) Deregister(o TXObserver) {
+	h.mu.Lock()
+	defer h.mu.Unlock()
 	newObservers := make([]TXObserver, 0, len(h.txObservers))
 	for _, observer := range h.txObservers {
 		if observer.GetSwapID() != o.GetSwapID() {
@@ -54,9 +56,14 @@ func (h *liquidBlockHeaderSubscriber) Deregister(o TXObserver) {
 }
 
 func (h *liquidBlockHeaderSubscriber) Update(ctx context.Context, blockHeight BlockHeight) error {
+	// Call the observers without holding the lock. A callback runs the swap's
+	// state machine, which in turn registers observers here: calling back with
+	// the lock held can block both sides forever.
 	h.mu.Lock()
-	defer h.mu.Unlock()
-	for _, observer := range h.txObservers {
+	observers := make([]TXObserver, len(h.txObservers))
+	copy(observers, h.txObservers)
+	h.mu.Unlock()
+	for _, observer := range observers {
 		callbacked, err := observer.Callback(ctx, blockHeight)
 		if callbacked {
 			if err == nil || errors.Is(err, swap.ErrSwapDoesNotExist) {
